@@ -53,5 +53,10 @@ if __name__ == "__main__":
     except Exception:
         traceback.print_exc()
         rc = 2
+    if core.REPO != Path("/repo"):
+        # a run against a scratch tree regenerated lean/EvoModel/Gen/*.lean from that tree: put the tables of /repo (as
+        # committed) back, so that nothing derived from a scratch tree is ever left in the working copy / committed
+        import subprocess
+        subprocess.run(["git", "-C", str(core.VERIF), "checkout", "--", "lean/EvoModel/Gen"], capture_output=True)
     sys.stdout.flush()
     os._exit(rc)
